@@ -15,6 +15,7 @@ import (
 	"verif/internal/c02"
 	"verif/internal/c08"
 	"verif/internal/c10"
+	"verif/internal/c17"
 	"verif/internal/c19"
 	"verif/internal/c20"
 	"verif/internal/chancheck"
@@ -116,6 +117,8 @@ func check(id, tier string) int {
 		return c20.Run(tier, seed(), workers())
 	case "C19":
 		return c19.Run(tier, seed(), workers())
+	case "C17":
+		return c17.Run(tier, seed(), workers())
 	}
 	fmt.Fprintf(os.Stderr, "unknown property %q\n", id)
 	return 2
@@ -131,6 +134,8 @@ func replay(rp *evidence.Replay) int {
 		return c10.Replay(rp)
 	case "govl:C20":
 		return c20.Replay(rp)
+	case "govl:C17", "c17control":
+		return c17.Replay(rp)
 	case "govl:C19", "c19corpus":
 		return c19.Replay(rp)
 	case "chanscript":
